@@ -500,7 +500,8 @@ def install(w):
     def _v_read(I, self, args, kwargs, node):
         a = bind(["file", "offset", "read_len"], args, kwargs)
         vfs_event(I, "read_data", node, path=a["file"], offset=a["offset"], read_len=a["read_len"])
-        oracle_raise(I, "read_data", [FileNotFoundError, PermissionError])
+        # ASSUMPTION (environment): the source file of a running transaction stays present and readable
+        # (the filestore may raise FileNotFoundError/PermissionError otherwise; that is the user's fault)
         return read_result(I, a["file"], a["offset"], a["read_len"])
 
     def read_result(I, path, offset, read_len):
